@@ -67,6 +67,8 @@ type keyCase struct {
 	// EventType of the forwarded key: "" = press
 	EventType string `json:"event_type,omitempty"`
 	Between   string `json:"between_modes_and_key,omitempty"`
+	// AfterRIS: DECCKM and DECKPAM were set, then RIS (ESC c) was received
+	AfterRIS bool `json:"modes_set_then_full_reset,omitempty"`
 }
 
 var named = []struct {
@@ -188,6 +190,13 @@ func runKeys(w *harness.W, s spec) {
 				kp = "\x1b="
 			}
 			setModes(m, onoff(1, kc.DECCKM), kp)
+			if i%11 == 5 {
+				// a full reset (RIS, what `reset` emits after a full-screen
+				// program died) puts every input mode back to its default
+				setModes(m, onoff(1, true), "\x1b=", "\x1bc")
+				kc.DECCKM, kc.DECKPAM = false, false
+				kc.AfterRIS = true
+			}
 			// things a child does between choosing its modes and reading a key
 			// that must not touch the cursor-key / keypad modes
 			between := []string{"", "\x1b8", "\x1b7\x1b8", "\x1b[s\x1b[u", "\x1b[?6h\x1b7\x1b[?6l\x1b8", "\x1b[?1049h\x1b[?1049l", "\x1b[2;5r\x1b[r", "\x1b[4h\x1b[4l"}[i%8]
@@ -408,7 +417,14 @@ func runMouse(w *harness.W, s spec) {
 		var raw [][]byte
 		for i := off; i < end; i++ {
 			mc := &cases[i]
-			setModes(m, onoff(1049, mc.AltScreen), onoff(1000, mc.M1000), onoff(1002, mc.M1002), onoff(1003, mc.M1003), onoff(1006, mc.M1006), onoff(1007, mc.AltScroll))
+			if i%9 == 4 && !mc.AltScreen {
+				// every mouse mode set, then a full reset (RIS): nothing is enabled
+				setModes(m, onoff(1049, false), onoff(1000, true), onoff(1002, true), onoff(1003, true), onoff(1006, true), onoff(1007, true), "\x1bc")
+				mc.M1000, mc.M1002, mc.M1003, mc.M1006, mc.AltScroll = false, false, false, false, false
+				mc.Modes = "1000, 1002, 1003, 1006, 1007 set, then RIS (ESC c)"
+			} else {
+				setModes(m, onoff(1049, mc.AltScreen), onoff(1000, mc.M1000), onoff(1002, mc.M1002), onoff(1003, mc.M1003), onoff(1006, mc.M1006), onoff(1007, mc.AltScroll))
+			}
 			ev := vaxis.Mouse{Button: vaxis.MouseButton(mc.Button), Col: mc.Col, Row: mc.Row, EventType: vaxis.EventType(mc.Type)}
 			val, stack, panicked := harness.Recover(func() { m.Update(ev) })
 			if panicked {
